@@ -30,7 +30,9 @@ HARMLESS_FRAGS = ["userBits", "NodeParts", "f1", "typeBits", "case"]
 STRESS_FRAGS = ["class", "none", "_1", "Optional", "BaseModel", "List", "Field", "_"]
 HARMLESS_ENUM_VALUES = ["name", "value", "lower_case", "X1", "type", "match", "__dunder__", "ok"]
 STRESS_ENUM_VALUES = ["class", "None", "True", "mro", "_sunder_", "_order_", "from", "class_", "_"]
-HARMLESS_FIELDS = ["camelCaseHTTPField", "snake_case_field", "Field9", "type", "match", "fields", "x_", "construct", "_private"]
+HARMLESS_FIELDS = ["camelCaseHTTPField", "snake_case_field", "Field9", "type", "match", "fields", "x_", "construct", "_private",
+                   # snake-case to a name pydantic reserves: must come out with the "_" suffix (schema_json_, model_dump_ ...)
+                   "schemaJson", "parseObj", "modelDump", "fromOrm", "updateForwardRefs", "modelValidateJson"]
 STRESS_FIELDS = ["class", "from", "copy", "json", "dict", "schema", "validate", "model_config", "model_fields", "None", "in",
                  "_1", "_class", "_copy", "class_", "_", "__", "typename__", "fooBar", "foo_bar", "self", "mro"]
 STRESS_TYPES = ["Optional", "List", "Any", "Field", "BaseModel", "Enum", "Upload", "Union", "Literal", "Annotated", "Client", "class_"]
